@@ -44,6 +44,8 @@ mod decycler;
 mod glyph_name;
 mod provider;
 mod variation;
+#[cfg(all(googlefonts_fontations_verif, feature = "std"))]
+pub mod verif_hooks;
 
 pub use glyph_name::{GlyphName, GlyphNameSource, GlyphNames};
 #[doc(inline)]
